@@ -14,6 +14,15 @@ CLAIMED = {
  "C14": dict(ref="7/C14", technique="Lean 4 theorems on the ordered-list model (set operators, lookups, uniqueness invariant by induction over mutation histories) + differential correspondence (all pairs of ordered sub-lists, queries, random histories with full-store dumps)",
              text="Machine-checked proof: every DimensionSet operator is characterised by the ordered list it returns; lookups agree with the order; distinct letters are an invariant of every constructor/mutator (clashes refused), lifted to arbitrary mutation sequences by induction. The transcription of dimensions.py is compared with the implementation on all pairs of ordered sub-lists of a 4-5 letter alphabet and on random in-place/out-of-place histories with a dump of every live set and array after each step (aliasing shows there).",
              note="pydantic validator behaviour (re-validation of a passed DimensionSet, model_copy being shallow) and Python list semantics are modelled; object identity is covered by correspondence, not by theorems"),
+ "C06": dict(ref="7/C06", technique="Lean 4 theorems (handler mechanism -> numpy index tuple -> model of numpy's advanced-index placement rule, unfolded for every selector-kind combination by induction over the dimension list) + np-semantics correspondence against numpy itself + index correspondence (exhaustive selector-kind combinations, equal lengths)",
+             text="Machine-checked proof: for a dict key in any order, keyed by letter or name, decoding to per-dimension selectors (keep / single item / subset Dimension), the read returns the original dims with single selections dropped and subset selections replaced, and each entry is the source entry at the addressed labels; a number write changes exactly the addressed entries; single-item/tuple keys reduce to dict keys; unknown, ambiguous, slice and non-subset keys are refused; items_where/split report true labels. The proofs unfold _init_dims_out/_init_ids/_convert_lists_to_meshgrid and the modelled numpy placement rule (adjacent vs separated advanced indices) for arbitrary numbers of dimensions.",
+             note="numpy indexing (basic, list, np.ix_ meshes, placement of broadcast axes, assignment broadcasting) is modelled in lean/Flodym/Np/Index.lean and validated against numpy by the np-semantics stream; list selectors on writes are covered by correspondence only"),
+ "C05": dict(ref="7/C05", technique="Lean 4 theorems (setitem spec for array / number / whole-ndarray right-hand sides, injectivity of the label-to-entry map, last-writer-wins by induction over assignment histories) + index correspondence; counterexample theorem for recorded finding D10",
+             text="Machine-checked proof: assignment never changes dims or shape; an array right-hand side reaches exactly the addressed entries, summed over the dimensions the region lacks and matched by label, and is refused when it lacks a region dimension; a number fills the region; whole-array ndarray assignment is accepted iff the shape is equal and stored as given; for any sequence of assignments every entry holds the value of the last assignment addressing it. List selectors with an array right-hand side are the recorded finding D10 (counterexample theorem + replayed witness).",
+             note="numpy assignment/broadcast semantics modelled; 'the assigned ndarray is copied' is an object-identity fact covered by the history correspondence (C15), not by these theorems"),
+ "C04": dict(ref="7/C04", technique="Lean 4 theorems (congruence of every operation under permutation of storage order, via permutation invariance of nested sums proved by induction on List.Perm) + correspondence streams exhaustive over all storage orders of every operand",
+             text="Machine-checked proof: label-equal (permuted and transposed) operands give label-equal results for add/sub/min/max, mul, div, sum_to, cast_to, cumsum and dict-key reads, and the result's own order follows the documented rule (left operand / requested / target). The correspondence streams enumerate every storage order of every operand (ordered subsets) with equal-length dimensions, so a silent transposition in the implementation is a disagreement.",
+             note="DataFrame export/import, stacking/splitting and the lifetime-parameter cast are tied by their own properties' streams (C11, C08); slice assignment order-independence is covered by the index correspondence and C05's label-level spec"),
 }
 
 def main():
